@@ -236,7 +236,9 @@ def segment(calls):
             steps.append({"val": c, "epochs": []})
         else:
             if not steps:
-                raise core.MachineryError("path trace: an epoch call before any validation call")
+                # no separate validation of the initial fit was observed: the first call then serves as the initial score AND as the
+                # validation that opens the first step (same weights, same kind of score); the oracles judge the run on that reading
+                steps.append({"val": calls[0], "epochs": []})
             steps[-1]["epochs"].append(c)
     return calls[0], steps
 
